@@ -113,6 +113,21 @@ def run(rng, tier, model_ok):
             stats["div_zero"] += 1
         items.append((gens.render(e, rng), (lambda want: (lambda reply: check_value(reply, want)))(want)))
     stats["boundary_family"] = len(fam)
+    # every integer exponent of either sign up to 70 in magnitude (literal and computed) under a handful of bases: an exponentiation
+    # by squaring, by bits or by chunks can be right for all the small and all the "round" exponents and wrong for the others
+    sweep = []
+    bases = [N("2"), N("3"), N("10"), N("1.5"), ("pct", "50"), B("-", N("0"), N("2")), B("/", N("1"), N("3"))]
+    for bi, a in enumerate(bases):
+        for k in range(-70, 71):
+            if tier == "quick" and (k + bi) % 2 and abs(k) > 24:
+                continue
+            sweep.append(B("^", a, N(str(k))))
+            if k % 5 == 0:
+                sweep.append(B("^", a, B("-", N(str(k + 9)), N("9"))))
+    for e in sweep:
+        want = gens.evaluate(e)
+        items.append((gens.render(e, rng), (lambda want: (lambda reply: check_value(reply, want)))(want)))
+    stats["exponent_sweep"] = len(sweep)
     # the same arithmetic with every kind of blank between the tokens (all of Unicode White_Space that can stand in a query)
     SP = ["\u00a0", "\u2009", "\u202f", "\u3000", "\u2003", "\u1680", "\u205f", "\u0085", "\t", "\n", "\r", "\x0b", "\x0c", "\u2028", "\u2029", "  "]
     base = [(B("+", N("1"), N("23")), None), (B("/", N("10"), N("4")), None), (B("^", N("2"), N("-3")), None), (B("-", B("*", N("2"), N("3")), N("4")), None),
@@ -141,7 +156,7 @@ def run(rng, tier, model_ok):
         "evaluations": len(items), "distinct_nontrivial": len(distinct),
         "rule": "random expression trees over decimal literals (1..300 digits, fractions, exponent notation, signs, percentages) with "
                 "+ - * / ^ (integer exponents incl. zero and negative), depth up to %d, printed with a random legal layout; about 8%% force a "
-                "division by zero or a negative power of zero; non-trivial = distinct queries with at least two operator characters" % stats["max_depth"],
+                "division by zero or a negative power of zero; boundary operands x operators; every exponent -70..70 under seven bases; non-trivial = distinct queries with at least two operator characters" % stats["max_depth"],
         "samples": [q for q, _ in items[len(corpus):len(corpus) + 6]],
         "mismatches": mismatches, "failures": failures,
         "extra": dict(stats, model_cases_evaluated_in_coq=ncoq, queries_checked_against_oracle_only=len(big), exhaustive=False),
